@@ -4,6 +4,7 @@ package tally
 
 import (
 	"io"
+	"reflect"
 	"time"
 
 	"github.com/uber-go/tally/v4/verifrt"
@@ -63,3 +64,57 @@ func VerifKey(prefix string, maps ...map[string]string) string {
 
 // VerifIsClosed reports the closed flag of a scope.
 func VerifIsClosed(s Scope) bool { return s.(*scope).closed.Load() }
+
+// VerifShardOf returns the index of the registry shard that holds s (-1: not found, or the registry has another
+// shape in this tree). Read by reflection so that a reshaped registry still builds; call it at a quiet moment.
+func VerifShardOf(s Scope) int {
+	sc, ok := s.(*scope)
+	if !ok || sc == nil {
+		return -1
+	}
+	reg := reflect.ValueOf(sc).Elem().FieldByName("registry")
+	if !reg.IsValid() || reg.Kind() != reflect.Ptr || reg.IsNil() {
+		return -1
+	}
+	subs := reg.Elem().FieldByName("subscopes")
+	if !subs.IsValid() || subs.Kind() != reflect.Slice {
+		return -1
+	}
+	for i := 0; i < subs.Len(); i++ {
+		b := subs.Index(i)
+		if b.Kind() == reflect.Ptr {
+			if b.IsNil() {
+				continue
+			}
+			b = b.Elem()
+		}
+		m := b.FieldByName("s")
+		if !m.IsValid() || m.Kind() != reflect.Map {
+			return -1
+		}
+		it := m.MapRange()
+		for it.Next() {
+			if v := it.Value(); v.Kind() == reflect.Ptr && v.Pointer() == reflect.ValueOf(sc).Pointer() {
+				if i == 0 {
+					continue // the root is in every shard; a subscope is in exactly one
+				}
+				return i
+			}
+		}
+	}
+	for i := 0; i < subs.Len() && i < 1; i++ {
+		b := subs.Index(i)
+		if b.Kind() == reflect.Ptr && !b.IsNil() {
+			b = b.Elem()
+		}
+		if m := b.FieldByName("s"); m.IsValid() && m.Kind() == reflect.Map {
+			it := m.MapRange()
+			for it.Next() {
+				if v := it.Value(); v.Kind() == reflect.Ptr && v.Pointer() == reflect.ValueOf(sc).Pointer() {
+					return 0
+				}
+			}
+		}
+	}
+	return -1
+}
